@@ -79,6 +79,24 @@ Proof.
     try (repeat constructor).
 Qed.
 
+(* spaces, underscores and commas are ignored: the result depends on the cleaned argument only, and inserting a
+   separator anywhere inside an argument (not changing what TrimSpace sees at the ends) changes nothing *)
+Theorem attime_separators_ignored : forall now s s', attime_clean s = attime_clean s' -> attime_parse now s = attime_parse now s'.
+Proof. exact attime_depends_on_clean. Qed.
+Print Assumptions attime_separators_ignored.
+
+Theorem attime_separator_insert : forall now a sep b, is_sep sep = true ->
+  trim_space (a ++ sep :: b) = a ++ sep :: b -> trim_space (a ++ b) = a ++ b ->
+  attime_parse now (a ++ sep :: b) = attime_parse now (a ++ b).
+Proof. exact TimeParseProofs.attime_separator_insert. Qed.
+Print Assumptions attime_separator_insert.
+
+Example attime_separator_insert_nonvacuous :
+  is_sep 95 = true /\ is_sep 44 = true /\ is_sep 32 = true /\
+  trim_space (bs "now-1" ++ 95%N :: bs "000s")%list = (bs "now-1" ++ 95%N :: bs "000s")%list /\
+  trim_space (bs "now-1" ++ bs "000s")%list = (bs "now-1" ++ bs "000s")%list.
+Proof. vm_compute. repeat split; reflexivity. Qed.
+
 (* ---------------------------------------------------------------------------------------------------------------- *)
 (* durations *)
 
@@ -182,6 +200,16 @@ Example bytesize_spec_nonvacuous :
   bytesize_parse (bs "100 MiB") = Some 100000000 /\
   bytesize_parse (bs "18446744073709551615") = None /\ bytesize_parse (bs "-5KB") = None /\
   bytesize_parse (bs "1.5 KB") = Some 1536 /\ bytesize_parse (bs "8192PB") = None.
+Proof. vm_compute. repeat split; reflexivity. Qed.
+
+(* negatives and junk are rejected: whatever does not start (after TrimSpace) with a digit or '.' is an error *)
+Theorem bytesize_rejects : forall s c r, trim_space s = c :: r -> num_char c = false -> bytesize_parse s = None.
+Proof. exact bytesize_rejects_lemma. Qed.
+Print Assumptions bytesize_rejects.
+
+Example bytesize_rejects_nonvacuous :
+  trim_space (bs " -5KB") = bs "-5KB" /\ num_char 45 = false /\ bytesize_parse (bs "1.2.3MB") = None /\
+  bytesize_parse (bs "5 K B") = None /\ bytesize_parse (bs "1e3") = None /\ bytesize_parse (bs "") = None.
 Proof. vm_compute. repeat split; reflexivity. Qed.
 
 (* Full statement of the print/parse round trip (false at the top of the range, see bytesize_print_parse_refuted):
